@@ -592,22 +592,23 @@ type LocationList struct {
 
 // Len returns the length of the list.
 func (ll *LocationList) Len() int {
-	if ll.Next == nil {
-		if ll.Data == nil {
-			return 0
-		}
-		return 1
+	n := 0
+	for ; ll.Next != nil; ll = ll.Next {
+		n++
 	}
-	return ll.Next.Len() + 1
+	if ll.Data == nil {
+		return n
+	}
+	return n + 1
 }
 
 // Slice returns the slice representation of the list.
 func (ll *LocationList) Slice() []Location {
 	list := []Location{ll.Data}
-	if ll.Next == nil {
-		return list
+	for ll = ll.Next; ll != nil; ll = ll.Next {
+		list = append(list, ll.Data)
 	}
-	return append(list, ll.Next.Slice()...)
+	return list
 }
 
 // Push a Location object to the end of the list. If the Location object is
@@ -616,14 +617,16 @@ func (ll *LocationList) Slice() []Location {
 // last element will be replaced with the joined Location object. If the force
 // option is false, then only partial ranges will be joined.
 func (ll *LocationList) Push(loc Location, force bool) {
-	if ll.Next != nil {
-		ll.Next.Push(loc, force)
-		return
+	for ll.Next != nil {
+		ll = ll.Next
 	}
 
 	if joined, ok := loc.(Joined); ok {
 		for i := range joined {
 			ll.Push(joined[i], force)
+			for ll.Next != nil {
+				ll = ll.Next
+			}
 		}
 		return
 	}
@@ -699,6 +702,53 @@ func (ll *LocationList) Push(loc Location, force bool) {
 	ll.Next = &LocationList{loc, nil}
 }
 
+// flattenJoined appends the given locations to list with the parts of every
+// Joined location in place of the Joined location itself.
+func flattenJoined(list, locs []Location) []Location {
+	for _, loc := range locs {
+		if joined, ok := loc.(Joined); ok {
+			list = flattenJoined(list, joined)
+		} else {
+			list = append(list, loc)
+		}
+	}
+	return list
+}
+
+// reduceLocations pushes the given locations to a new list in time
+// proportional to their number: the last node of the list is kept at hand and
+// a run of complemented locations is pushed as the single complement of the
+// enclosed locations joined in reverse order, which is what pushing them one
+// by one amounts to.
+func reduceLocations(locs []Location) LocationList {
+	list := LocationList{}
+	tail := &list
+	for i := 0; i < len(locs); i++ {
+		loc := locs[i]
+		if _, ok := loc.(Complemented); ok {
+			j := i
+			for j+1 < len(locs) {
+				if _, ok := locs[j+1].(Complemented); !ok {
+					break
+				}
+				j++
+			}
+			if i < j {
+				inner := make([]Location, 0, j-i+1)
+				for k := j; k >= i; k-- {
+					inner = append(inner, locs[k].(Complemented).Location)
+				}
+				loc, i = Complemented{Join(inner...)}, j
+			}
+		}
+		tail.Push(loc, true)
+		for tail.Next != nil {
+			tail = tail.Next
+		}
+	}
+	return list
+}
+
 // Joined represents a list of Location locations. It is strongly recommended
 // this be constructed using the Join helper function to reduce the list of
 // Location locations to the simplest representation.
@@ -710,19 +760,12 @@ type Joined []Location
 // of locations have only one element, the elemnt will be returuned. Otherwise,
 // a Joined object will be returned.
 func Join(locs ...Location) Location {
-	list := LocationList{}
-	for _, loc := range locs {
-		list.Push(loc, true)
-	}
+	list := reduceLocations(flattenJoined(nil, locs))
 
 	// A part that absorbs the site before it can end up next to a part it
 	// reduces with as well: repeat the reduction until nothing changes.
 	for n := list.Len(); n > 1; n = list.Len() {
-		next := LocationList{}
-		for _, loc := range list.Slice() {
-			next.Push(loc, true)
-		}
-		list = next
+		list = reduceLocations(list.Slice())
 		if list.Len() == n {
 			break
 		}
